@@ -27,6 +27,7 @@ package repository_test
 
 import (
 	"context"
+	"os"
 	"fmt"
 	"strings"
 	"testing"
@@ -202,7 +203,11 @@ func TestVerif_C13(t *testing.T) {
 			}
 			if !x.Deadlock && !x.Horizon && len(x.Panics) == 0 && !st.removeFailed {
 				if n := len(st.store.Keys(backend.LockFile)); n > 0 {
-					st.bad = append(st.bad, fmt.Sprintf("leftover: %d lock file(s) of the holder remain after Unlock although no removal was made to fail", n))
+					var names []string
+					for _, k := range st.store.Keys(backend.LockFile) {
+						names = append(names, k.String())
+					}
+					st.bad = append(st.bad, fmt.Sprintf("leftover: %d lock file(s) of the holder remain after Unlock although no removal was made to fail: %v (deadlock=%v horizon=%v idlewaits=%d steps=%d)", n, names, x.Deadlock, x.Horizon, x.IdleWaits, x.StepNo))
 				}
 			}
 			if len(st.bad) > 0 {
@@ -239,6 +244,13 @@ func verifC13Load(ctx context.Context, st *verifC13Exec, k gatebe.FileKey) (repo
 
 func verifC13Monitor(x *xplore.Exec, quantum time.Duration) {
 	st := x.Data.(*verifC13Exec)
+	if os.Getenv("VERIF_DEBUG") != "" {
+		var ev []string
+		for _, e := range x.Pending() {
+			ev = append(ev, e.Key)
+		}
+		fmt.Fprintf(os.Stderr, "DBG step=%d t=%s holding=%v ctxerr=%v live=%d pending=%v locks=%d\n", x.StepNo, time.Now().Format("15:04:05"), st.holding, st.lockCtx != nil && st.lockCtx.Err() != nil, x.Live(), ev, len(st.store.Keys(backend.LockFile)))
+	}
 	if !st.holding || st.lockCtx == nil || st.lockCtx.Err() != nil {
 		st.gapSince = time.Time{}
 		return
